@@ -159,3 +159,23 @@ Theorem C14_block_starts_are_the_source : forall line,
   g_Heading_start line = heading_start line /\ g_CodeFence_start line = codefence_start line /\ g_HtmlBlock_start line = htmlblock_start line.
 Proof. exact block_starts_regenerated. Qed.
 Print Assumptions C14_block_starts_are_the_source.
+
+(* A BACKSLASH THAT ESCAPES NOTHING IS ORDINARY TEXT (Proofs/LiteralBackslash.v): text, a backslash, a character c, text - c not one
+   of the characters EscapeSequence.pattern lets a backslash escape and not a trigger character (so: a letter, a digit, a space,
+   anything beyond ASCII; lit_chars settles the 32 punctuation characters and the line ending as outside, letters and digits as
+   inside) - tokenizes to ONE RawText holding all of it, the backslash included (CommonMark 2.4).  The pattern - regenerated from
+   span_token.py on every run - is evaluated at the backslash and fails on c; the scanner steps over both characters. *)
+From Mistletoe Require Import Model.Inline Proofs.EscSentence Proofs.LiteralBackslash.
+Theorem C14_literal_backslash : forall types fn pre c post,
+  lit_spans types = true -> lit_ok pre c post = true ->
+  tokenize_inner types fn (pre ++ [92; c] ++ post) = [RawText (pre ++ [92; c] ++ post)].
+Proof. exact literal_backslash. Qed.
+Print Assumptions C14_literal_backslash.
+
+Theorem C14_literal_backslash_hypotheses :
+  (forallb lit_char ($"azAZ09 ") = true /\ lit_char 233 = true /\ lit_char 20013 = true /\
+   forallb (fun c => negb (lit_char c)) ($"!""#$%&'()*+,-./:;<=>?@[\]^_`{|}~") = true /\ lit_char 10 = false) /\
+  map (fun cf => lit_spans (cfg_span cf)) [cfg_html; cfg_html_nohtml; cfg_markdown; cfg_latex; cfg_mathjax; cfg_default] = [true; true; true; true; true; true] /\
+  lit_ok ($"the C:") 50 ($"024 reports") = true /\ lit_ok ($"a ") 42 ($" b") = false.
+Proof. split; [exact lit_chars|]. split; [exact lit_configs|]. vm_compute. split; reflexivity. Qed.
+Print Assumptions C14_literal_backslash_hypotheses.
